@@ -24,6 +24,13 @@ impl Write for Piecemeal {
 fn linear(bytes: &[u8], cfg: &Cfg, chosen: &[String], rng: &mut Rng) -> Result<BTreeMap<String, Vec<u8>>, String> {
     let r = std::panic::catch_unwind(std::panic::AssertUnwindSafe(|| {
         let mut ar = ArchiveReader::from_config(Cursor::new(bytes), cfg.reader_config()).map_err(|e| format!("open:{}", err_class(&e)))?;
+        // one time in two the reader has been used before (a hash, a partly read file, a first linear pass):
+        // linear extraction starts from the beginning whatever the reader did before
+        match rng.below(4) {
+            0 => { let names: Vec<String> = ar.list_files().map(|it| it.cloned().collect()).unwrap_or_default(); if let Some(n) = names.last() { let _ = ar.get_hash(n); if let Ok(Some(mut f)) = ar.get_file(n.clone()) { let mut b = [0u8; 7]; let _ = std::io::Read::read(&mut f.data, &mut b); } } }
+            1 => { let mut e0: HashMap<&String, Vec<u8>> = HashMap::new(); let _ = linear_extract(&mut ar, &mut e0); }
+            _ => {}
+        }
         let mut export: HashMap<&String, Piecemeal> = HashMap::new();
         for n in chosen { export.insert(n, Piecemeal { data: vec![], rng: rng.fork() }); }
         linear_extract(&mut ar, &mut export).map_err(|e| err_class(&e))?;
@@ -116,6 +123,46 @@ fn check_trunc(rep: &mut Report, model: &mut Model, ops: &[Op], b: &Built, rng: 
     true
 }
 
+/// The command line tool's whole-archive extraction IS linear extraction, through a pool of open file
+/// writers (mlar/src/main.rs, `FILE_WRITER_POOL_SIZE`): an archive built with the library — one file in
+/// two runs with more files than the pool holds written in between — extracted by the real `mlar`.
+fn check_mlar_pool(rep: &mut Report, rng: &mut Rng) {
+    let bin = match crate::cli::build_mlar() { Ok(b) => b, Err(e) => { rep.notes.push(format!("mlar not built: {e}")); return; } };
+    let nfiles = 1000 + 60 + rng.below(50) as usize;
+    let mut ops = vec![Op::Start("first.bin".into()), Op::Append { id: 0, size: 20, src: rng.bytes(20, 3) }];
+    for i in 0..nfiles { let d = rng.bytes(1 + (i % 7), 3); ops.push(Op::Add { name: format!("d{}/f{i:05}", i % 13), size: d.len() as u64, src: d }); }
+    ops.push(Op::Append { id: 0, size: 12, src: rng.bytes(12, 3) });
+    ops.push(Op::End(0));
+    ops.push(Op::Finalize);
+    let cfg = Cfg::plain();
+    let b = build(&cfg, &ops);
+    let spec = spec_of(&ops, &b.results);
+    let build_dir = std::env::var("VERIF_BUILD").unwrap_or_else(|_| "/verif/.build".into());
+    let _ = std::fs::create_dir_all(&build_dir);
+    let dir = match tempfile::Builder::new().prefix("c12-mlar-").tempdir_in(&build_dir) { Ok(d) => d, Err(_) => return };
+    let arch = dir.path().join("a.mla");
+    std::fs::write(&arch, &b.bytes).expect("scratch archive");
+    let out_dir = dir.path().join("out");
+    std::fs::create_dir_all(&out_dir).expect("out dir");
+    let args: Vec<String> = vec!["extract".into(), "-i".into(), arch.display().to_string(), "-o".into(), out_dir.display().to_string()];
+    let out = crate::cli::run_mlar(&bin, dir.path(), &args, None);
+    rep.eval(fnv(&b.bytes), true);
+    rep.count("mlar-pool");
+    let case = json!({"kind":"mlar-pool","files": nfiles + 1, "ops_seed": "regenerated from the run seed"});
+    if !out.ok() {
+        rep.violation("oracle", "C12/mlar-linear", json!({"what":"mlar-extract-fails"}), &format!("mlar extract of a library-built archive of {} files fails: exit {} {}", nfiles + 1, out.code, out.stderr_excerpt()), case);
+        return;
+    }
+    for (n, want) in &spec {
+        let got = std::fs::read(out_dir.join(n)).unwrap_or_default();
+        if &got != want {
+            rep.violation("oracle", "C12/mlar-linear", json!({"what":"mlar-extract-differs"}),
+                &format!("mlar extract (linear, {} files, more than the writer pool holds): {n:?} has {} bytes, expected {}{}", nfiles + 1, got.len(), want.len(), if got.len() == want.len() { " (content differs)" } else { "" }), case);
+            return;
+        }
+    }
+}
+
 pub fn run(ctx: &Ctx) -> Report {
     let mut rep = Report::new("C12");
     let mut model = Model::spawn();
@@ -145,6 +192,7 @@ pub fn run(ctx: &Ctx) -> Report {
             if !check(&mut rep, &mut model, &cfg, &ops, &b, &s, &mut rng) && rep.full() { return rep; }
         }
     }
+    if !CONSTS.scaled { check_mlar_pool(&mut rep, &mut rng); if rep.full() { return rep; } }
     // alignment cases (see gens::aligned_ops): linear extraction reads across the block boundary sequentially
     for residue in [1usize, 2] {
         if let Some(ops) = aligned_ops(&mut rng, residue) {
